@@ -1,4 +1,5 @@
 """Sidecar contracts for insights/core/plugins.py (invoke overrides, rule.process)."""
+import collections
 from pyvc.dsl import *
 from contracts.dr import M as DR, Comp, Val, MISSING
 
@@ -31,7 +32,9 @@ def declare(reg):
 
     # interface of invoke() as process() sees it (overrides: PluginType, datasource, parser - verified against it below)
     reg.interface("Delegate", "invoke", params=dict(self=Ref("Delegate"), broker=Ref("Broker")), returns=Opt(Val),
-                  modifies=["Broker.exceptions", "Broker.tracebacks"], raises={"Exception": None},
+                  requires=[ALL_PRESENT],
+                  modifies=["Broker.exceptions", "Broker.tracebacks", "Broker.missing_requirements", "Delegate.timeout"],
+                  raises={"Exception": None},
                   ensures=REC("broker"), ensures_raise={"Exception": REC("broker")})
 
     reg.contract(DR, "ComponentType.process", params=dict(self=Ref("Delegate"), broker=Ref("Broker")), returns=Opt(Val),
@@ -61,12 +64,13 @@ def declare(reg):
     conv_b = reg.external("<datasource body>", params=dict(c=Comp, broker=Ref("Broker")), returns=Opt(Val),
                           raises={"Exception": "ds_raises(c, broker.instances)"}, raise_frame="unchanged",
                           ensures=["result == ds_value(c, broker.instances)"],
-                          ensures_raise={"Exception": ["exc == ds_exc(c, broker.instances)"]},
+                          ensures_raise={"Exception": ["exc == ds_exc(c, broker.instances)", "not isinstance_exc(exc, MissingRequirements)"]},
                           note="a datasource body is called with the broker; assumed deterministic in the broker's values, "
                                "not to write Broker fields, and to raise only Exception subclasses")
     conv_c = reg.external("<parser body>", params=dict(c=Comp, v=Opt(Val)), returns=Opt(Val),
                           raises={"Exception": "p_raises(c, v)"}, raise_frame="unchanged",
-                          ensures=["result == p_value(c, v)"], ensures_raise={"Exception": ["exc == p_exc(c, v)"]},
+                          ensures=["result == p_value(c, v)"],
+                          ensures_raise={"Exception": ["exc == p_exc(c, v)", "not isinstance_exc(exc, MissingRequirements)"]},
                           note="a parser body is called with one value; deterministic, no Broker writes")
     reg.callables[("Delegate", "component")] = [reg.callables[("Delegate", "component")], conv_b, conv_c]
 
@@ -107,4 +111,154 @@ def declare(reg):
                      "implies(not (isinstance_exc(%s, ContentException) or isinstance_exc(%s, CalledProcessError)), "
                      "        exc == %s and broker.exceptions == old(broker.exceptions))" % (BODY_A, BODY_A, BODY_A),
                      "forall(b, Ref_Broker, b.missing_requirements == old(b.missing_requirements))",
+                 ]})
+
+    # ------------------------------------------------------------------ parser.invoke (multi-output aware)
+    C_ = "self.component"
+    ITEMS = "val_items(some(broker.instances[self.requires[0]]))"
+    LISTDEP = "(old(broker.instances[self.requires[0]]) is not None and is_list_val(some(old(broker.instances[self.requires[0]]))))"
+    DEP = "broker.instances[self.requires[0]]"
+    # element k of a list-valued dependency is *recorded* iff its body raises and the exception is not a plain skip
+    # (a ContentException is a SkipComponent subclass but is recorded), or skips are stored
+    def REC_ELEM(k):
+        e = "p_exc(%s, it_0[%s])" % (C_, k)
+        return ("(p_raises(%s, it_0[%s]) and (not isinstance_exc(%s, SkipComponent) or isinstance_exc(%s, ContentException) "
+                "or broker.store_skips))" % (C_, k, e, e))
+    def KEPT_ELEM(k):
+        return "(not p_raises(%s, it_0[%s]) and p_value(%s, it_0[%s]) is not None)" % (C_, k, C_, k)
+    ONLY_SELF = [
+        "forall(c, Comp, implies(c in old(broker.exceptions), c in broker.exceptions))",
+        # nothing is recorded against any other component, recorded lists only grow
+        "forall(c, Comp, implies(c != %s, (c in broker.exceptions) == (c in old(broker.exceptions)) and "
+        "  implies(c in broker.exceptions, seq_eq(broker.exceptions[c], old(broker.exceptions)[c]))))" % C_,
+        "forall(o, Ref_Broker, implies(o != broker, o.exceptions == old(o.exceptions) and o.tracebacks == old(o.tracebacks)))",
+        "forall(o, Ref_Broker, o.missing_requirements == old(o.missing_requirements))",
+    ]
+    NOLD = "len(excs_of(old(broker.exceptions), %s))" % C_
+    PI_INV = ONLY_SELF + [
+        "in_loop",
+        "it_0 == %s" % "val_items(some(dep_value))",
+        # results: the non-None values of the elements that did not raise, in order (src: their positions)
+        "len(src) == len(results)",
+        "forall(j, range(0, len(src)), 0 <= src[j] and src[j] < i_0 and %s and results[j] == p_value(%s, it_0[src[j]]))" % (KEPT_ELEM("src[j]"), C_),
+        "forall(a, range(0, len(src)), forall(b, range(0, len(src)), implies(a < b, src[a] < src[b])))",
+        "forall(k, range(0, i_0), implies(%s, k in srcidx and 0 <= srcidx[k] and srcidx[k] < len(src) and src[srcidx[k]] == k))" % KEPT_ELEM("k"),
+        # recorded exceptions: exactly those of the recordable elements, in order, appended to the component's own list
+        "len(excs_of(broker.exceptions, %s)) == %s + len(recsrc)" % (C_, NOLD),
+        "forall(j, range(0, %s), excs_of(broker.exceptions, %s)[j] == excs_of(old(broker.exceptions), %s)[j])" % (NOLD, C_, C_),
+        "forall(j, range(0, len(recsrc)), 0 <= recsrc[j] and recsrc[j] < i_0 and %s and "
+        "  excs_of(broker.exceptions, %s)[%s + j] == p_exc(%s, it_0[recsrc[j]]) and "
+        "  p_exc(%s, it_0[recsrc[j]]) in broker.tracebacks and broker.tracebacks[p_exc(%s, it_0[recsrc[j]])] is not None)"
+        % (REC_ELEM("recsrc[j]"), C_, NOLD, C_, C_, C_),
+        "forall(a, range(0, len(recsrc)), forall(b, range(0, len(recsrc)), implies(a < b, recsrc[a] < recsrc[b])))",
+        "forall(k, range(0, i_0), implies(%s, k in recidx and 0 <= recidx[k] and recidx[k] < len(recsrc) and recsrc[recidx[k]] == k))" % REC_ELEM("k"),
+        "implies(len(recsrc) > 0, %s in broker.exceptions)" % C_,
+        "not exception",
+    ]
+    reg.contract(P, "parser.invoke", params=dict(self=Ref("Delegate"), broker=Ref("Broker")), returns=Opt(Val),
+                 requires=["self.requires[0] in broker.instances"],
+                 assume=["len(self.requires) >= 1"],
+                 note="a parser delegate always has at least one required dependency (the datasource it parses): assumed",
+                 modifies=["Broker.exceptions", "Broker.tracebacks", "Broker.missing_requirements"],
+                 locals=dict(results=List(Opt(Val)), src=List(INT), srcidx=Map(INT, INT), recsrc=List(INT), recidx=Map(INT, INT),
+                             in_loop=BOOL, gres=List(Opt(Val))),
+                 ghosts=collections.OrderedDict(src=(List(INT), "[]"), srcidx=(Map(INT, INT), "{}"), recsrc=(List(INT), "[]"),
+                                                recidx=(Map(INT, INT), "{}"), in_loop=(BOOL, "False"), gres=(List(Opt(Val)), "[]")),
+                 ghost_on=[("results = []", "in_loop = True", "after"),
+                           ("results.append(r)", "srcidx[i_0] = len(src); src.append(i_0)", "after"),
+                           ("broker.add_exception(_, _, _)",
+                            "if in_loop:\n    recidx[i_0] = len(recsrc)\n    recsrc.append(i_0)", "after"),
+                           ("return results", "gres = results", "before")],
+                 loops={0: PI_INV},
+                 raises={"Exception": None},
+                 ensures=ONLY_SELF + [
+                     # single value: the body's value, nothing recorded
+                     "implies(not %s, result == p_value(%s, old(%s)) and not p_raises(%s, old(%s)) and "
+                     "        broker.exceptions == old(broker.exceptions))" % (LISTDEP, C_, DEP, C_, DEP),
+                     # list: the non-None element values in element order
+                     "implies(%s, result == val_of_list(gres) and len(gres) >= 1 and len(src) == len(gres))" % LISTDEP,
+                     "implies(%s, forall(j, range(0, len(src)), 0 <= src[j] and src[j] < len(old(%s)) and "
+                     "   gres[j] == p_value(%s, old(%s)[src[j]]) and not p_raises(%s, old(%s)[src[j]])))" % (LISTDEP, ITEMS, C_, ITEMS, C_, ITEMS),
+                     "implies(%s, forall(a, range(0, len(src)), forall(b, range(0, len(src)), implies(a < b, src[a] < src[b]))))" % LISTDEP,
+                     "implies(%s, forall(k, range(0, len(old(%s))), implies(not p_raises(%s, old(%s)[k]) and p_value(%s, old(%s)[k]) is not None, "
+                     "   k in srcidx and 0 <= srcidx[k] and srcidx[k] < len(src) and src[srcidx[k]] == k)))" % (LISTDEP, ITEMS, C_, ITEMS, C_, ITEMS),
+                 ],
+                 ensures_raise={"Exception": ONLY_SELF + [
+                     # from a list-valued dependency only the skip signal escapes
+                     "implies(%s, exc_is(exc, SkipComponent))" % LISTDEP,
+                 ]})
+
+    # ------------------------------------------------------------------ datasource.invoke
+    DSV = "ds_value(self.component, broker.instances)"
+    DSX = "ds_exc(self.component, broker.instances)"
+    DSR = "ds_raises(self.component, broker.instances)"
+    FAULT = "(isinstance_exc(%s, ContentException) or isinstance_exc(%s, CalledProcessError) or isinstance_exc(%s, TimeoutException))" % (DSX, DSX, DSX)
+    ONLY_RP = REC("broker") + ["forall(o, Ref_Broker, o.missing_requirements == old(o.missing_requirements))"]
+    def DS_INV(ev):
+        # loop over the registry points (arbitrary order): the processed ones carry the exception last, the others are untouched
+        return ONLY_RP + [
+            "forall(j, range(0, i_), it_[j] in broker.exceptions and len(broker.exceptions[it_[j]]) >= 1 and "
+            "  broker.exceptions[it_[j]][len(broker.exceptions[it_[j]]) - 1] == %s)" % ev,
+            "forall(j, range(i_, len(it_)), (it_[j] in broker.exceptions) == (it_[j] in old(broker.exceptions)) and "
+            "  implies(it_[j] in broker.exceptions, seq_eq(broker.exceptions[it_[j]], old(broker.exceptions)[it_[j]])))",
+            "implies(i_ > 0, %s in broker.tracebacks and broker.tracebacks[%s] is not None)" % (ev, ev),
+        ]
+    reg.contract(P, "datasource.invoke", params=dict(self=Ref("Delegate"), broker=Ref("Broker")), returns=Opt(Val),
+                 modifies=["Broker.exceptions", "Broker.tracebacks", "Broker.missing_requirements", "Delegate.timeout"],
+                 loops={0: [t.replace("i_", "i_0").replace("it_", "it_0") for t in DS_INV("ce")],
+                        1: [t.replace("i_", "i_1").replace("it_", "it_1") for t in DS_INV("cpe")],
+                        2: [t.replace("i_", "i_2").replace("it_", "it_2") for t in DS_INV("te")]},
+                 raises={"Exception": DSR},
+                 ensures=["result == %s" % DSV, "broker.exceptions == old(broker.exceptions)"] + ONLY_RP,
+                 ensures_raise={"Exception": ONLY_RP + [
+                     "implies(%s, exc_is(exc, SkipComponent))" % FAULT,
+                     # every registry point of the datasource gets the fault, with a traceback
+                     "implies(%s, forall(r, regpoints(self.component), r in broker.exceptions and len(broker.exceptions[r]) >= 1 and "
+                     "   broker.exceptions[r][len(broker.exceptions[r]) - 1] == %s))" % (FAULT, DSX),
+                     "implies(%s and isempty(regpoints(self.component)), self.component in broker.exceptions and len(broker.exceptions[self.component]) >= 1 and "
+                     "   broker.exceptions[self.component][len(broker.exceptions[self.component]) - 1] == %s)" % (FAULT, DSX),
+                     # accounting clause of the property: the fault is recorded against the datasource or a spec it implements
+                     "implies(%s and not isinstance_exc(%s, SkipComponent), "
+                     "   exists(k, Comp, (k == self.component or k in regpoints(self.component)) and k in broker.exceptions and "
+                     "          len(broker.exceptions[k]) >= 1 and broker.exceptions[k][len(broker.exceptions[k]) - 1] == %s))" % (FAULT, DSX, DSX),
+                     "implies(not %s, exc == %s and broker.exceptions == old(broker.exceptions))" % (FAULT, DSX),
+                 ]})
+
+    # ------------------------------------------------------------------ rule.process
+    reg.glob(P, IGNORE=Map(Comp, Set(Comp)))
+    reg.dotted_globals = getattr(reg, "dotted_globals", {})
+    reg.dotted_globals["dr.IGNORE"] = "IGNORE"
+    reg.defaultdicts["IGNORE"] = "set()"
+    reg.classes["Val"]["__isinstance__"]["Response"] = "is_response(self)"
+    reg.specfun("is_response", dict(v=Val), BOOL, None)
+    reg.specfun("resp_type", dict(v=Val), STR, None)
+    reg.specfun("resp_missing", dict(v=Val), MISSING, None)
+    reg.external("_make_skip", params=dict(rule_fqdn=STR, missing=MISSING), returns=Opt(Val),
+                 ensures=["result is not None", "is_response(some(result))", "resp_type(some(result)) == 'skip'",
+                          "seq_eq(resp_missing(some(result))[0], missing[0])", "seq_eq(resp_missing(some(result))[1], missing[1])"],
+                 note="_make_skip(name, missing) builds a Response of type 'skip' that carries `missing` (its constructor is under contract in C12)")
+    reg.external("make_none", returns=Opt(Val),
+                 ensures=["result is not None", "is_response(some(result))", "resp_type(some(result)) == 'none'"])
+    MR = "[r for r in self.requires if r not in broker.instances]"
+    MA = "[g for g in self.at_least_one if not any(m in broker.instances for m in g)]"
+    reg.contract(P, "rule.process", params=dict(self=Ref("Delegate"), broker=Ref("Broker")), returns=Opt(Val),
+                 modifies=["Broker.exceptions", "Broker.tracebacks"],
+                 ghosts=dict(ninv=(INT, "0"), inv_val=(Opt(Val), "None")), locals=dict(ninv=INT, inv_val=Opt(Val)),
+                 ghost_on=[("r = self.invoke(broker)", "ninv = ninv + 1", "before"), ("r = self.invoke(broker)", "inv_val = r", "after")],
+                 raises={"Exception": None},
+                 ensures=["not old(%s)" % IGNORED] + REC("broker") + [
+                     # requirements not met: a skip response naming exactly the missing ones; the body is not invoked
+                     "implies(not old(%s), ninv == 0 and result is not None and is_response(some(result)) and resp_type(some(result)) == 'skip' and "
+                     "   seq_eq(resp_missing(some(result))[0], old(%s)) and seq_eq(resp_missing(some(result))[1], old(%s)))" % (ALL_PRESENT, MR, MA),
+                     # requirements met: invoked once; None becomes the 'none' response; a Response is returned unchanged
+                     "implies(old(%s), ninv == 1 and result is not None and is_response(some(result)))" % ALL_PRESENT,
+                     "implies(old(%s) and inv_val is None, resp_type(some(result)) == 'none')" % ALL_PRESENT,
+                     "implies(old(%s) and inv_val is not None, result == inv_val)" % ALL_PRESENT,
+                 ],
+                 ensures_raise={"Exception": REC("broker") + [
+                     "implies(old(%s), exc_is(exc, SkipComponent) and ninv == 0)" % IGNORED,
+                     "implies(not old(%s), old(%s))" % (IGNORED, ALL_PRESENT),       # missing requirements never raise for a rule
+                     "implies(not old(%s), ninv == 1)" % IGNORED,
+                     # a non-Response return value is an error
+                     "implies(not old(%s) and ninv == 1 and inv_val is not None and not is_response(some(inv_val)), exc_is(exc, Exception))" % IGNORED,
                  ]})
